@@ -354,7 +354,7 @@ func init() {
 				Rule: fmt.Sprintf("each hash function twice at the same time on different images (one of them YCbCr) under the cooperative scheduler of C05, every schedule and pool answer with <= %d deviations: the luminance buffer a call converts into is its own until the hash is computed", pb)})
 			if raceBin := os.Getenv("VCHECK_RACE_BIN"); raceBin != "" {
 				sp = append(sp, mc.Space{Name: "concurrent-hash-pairs/race-detector", H: c05HarnessOf(c19HashPairs), Bound: pb - 1, Isolate: true, SplitDepth: 1,
-					Binary: raceBin, Env: []string{"GORACE=halt_on_error=1 exitcode=66"},
+					Binary: raceBin, Env: []string{"GORACE=halt_on_error=1 exitcode=66 history_size=7"},
 					Rule: "the same in the -race build"})
 			}
 			return sp
